@@ -21,7 +21,7 @@ def nested(n, kind):
 def run(rep, tier, seed, replay):
     rep.rule = ("all strings: grammar-directed expressions, a malformed stream (unbalanced delimiters, arbitrary scalars), bounds up to and beyond the "
                 "machine word, nesting to 150 levels (thousands in the thorough tier, in a child process); every public operation runs under "
-                "catch_unwind: new, depth, text, has_root, is_exhaustive, has_semantic_literals, captures, Display, the three partitions, into_owned, "
+                "catch_unwind: new, depth, text, has_root, is_exhaustive, has_semantic_literals, captures, Display, the three partitions (also of the owned glob, and re-partition / captures of the postfix), into_owned, "
                 "any of text / compiled, not, the walker's programs, is_match / matched / get on sampled paths; non-trivial = distinct expressions "
                 "that build, or that have a bound or nesting beyond the ordinary")
     exprs = lib.inputs(rep, "C05", tier, seed, 2500, 30000, replay, malformed_share=0.35)
@@ -35,6 +35,11 @@ def run(rep, tier, seed, replay):
             c = r.choice(["4294967295", "1", "0", "", "18446744073709551615", "2"])
             body = r.choice(["a", "ab", "?", "*a", "a/", "[ab]", "{a,b}", "<a:2>", "$?", "é"])
             exprs.append(r.choice(["x", "", "/"]) + "<%s:%s%s>" % (body, b, ("," + c) if r.random() < 0.5 else "") + r.choice(["", "y", "/z", "<b:1,>"]))
+        # invariant prefixes spelled longer than their text (escapes, flags, classes, exact repetitions, single-branch
+        # alternations) around multi-byte characters, before a variant postfix: the byte arithmetic of partition
+        pres = ["{é}é", "[é]/é", "\\*\\*愛", "(?-i)愛é", "<é:1>é", "é{愛}", "(?i)1é", "<é/:2>愛", "[愛]愛", "{é/愛}", "(?i)中", "<<é:1>:1>é", "愛\\[é\\]", "/{é}", "/<愛:2>é"]
+        posts = ["/*", "/**/*.rs", "/x/**", "*", "/{a,b}*", "/**", "/é*", "/<a:1,>"]
+        exprs += [a + b for a in pres for b in posts]
         exprs = list(dict.fromkeys(exprs))
     h, m = common.harness(), common.model()
     rep.evaluations = len(exprs)
